@@ -39,8 +39,21 @@ def evalC11Gossip (outs : List String) : Oracle.Verdict :=
     else .ok "gossip"
   | _, _, _ => .bad "C11 gossip"
 
+/-- the same gate after the Subscriber was stopped and started again: the rejected header is refused (the verifier having
+    been consulted), bytes that are no header are not delivered, the valid header is, and reading it does not crash -/
+def evalC11Restart (ins outs : List String) : Oracle.Verdict :=
+  match kv? outs "lifecycle", kv? outs "local", kv? outs "verifierasked", kv? outs "delivered", kv? outs "crashed" with
+  | some "ok", some l, some a, some d, some c =>
+    if c != "0" then .prop "c11_total" "reading the subscription panicked"
+    else if l != "refused" || a != "1" then .prop "c11_accept_iff" s!"a header the verifier rejects: broadcast {l}, verifier asked={a}"
+    else if d != "1" then .prop "c11_accept_iff" s!"delivered={d} (expected exactly the valid header 1)"
+    else .ok s!"restart-{(kv? ins "restarts").getD "?"}"
+  | some lc, _, _, _, _ => .prop "c11_total" s!"stop/start failed: {lc}"
+  | _, _, _, _, _ => .bad "C11 restart"
+
 def evalC11 (ins outs : List String) : Oracle.Verdict :=
   if kv? ins "kind" == some "gossip" then evalC11Gossip outs else
+  if kv? ins "kind" == some "restart" then evalC11Restart ins outs else
   match (kv? ins "payload").bind extractOf?, (kv? ins "outcome").bind outcomeOf?, kv? outs "verdict", kv? outs "delivered" with
   | some e, some o, some v, some d =>
     match c11_ok e o v d with
